@@ -40,9 +40,18 @@ def _is_table(v):
         MAX_ROWS and not any(isinstance(x, ast.Starred) for x in v.elts)
 
 
+def _is_key(k):
+    if isinstance(k, ast.Constant):
+        return True
+    # an enum member / module constant: Name.attr(.attr)
+    while isinstance(k, ast.Attribute):
+        k = k.value
+    return isinstance(k, ast.Name)
+
+
 def _is_dict_table(v):
     return isinstance(v, ast.Dict) and 0 < len(v.keys) <= MAX_ROWS and all(
-        isinstance(k, ast.Constant) for k in v.keys)
+        k is not None and _is_key(k) for k in v.keys)
 
 
 def _simple_cell(x):
@@ -125,10 +134,37 @@ def _fold_str(e):
     return None
 
 
+def _const_truth(t):
+    if isinstance(t, ast.Constant):
+        return bool(t.value)
+    if isinstance(t, ast.UnaryOp) and isinstance(t.op, ast.Not):
+        v = _const_truth(t.operand)
+        return None if v is None else not v
+    return None
+
+
+def _prune_const_ifs(body):
+    out = []
+    for st in body:
+        if isinstance(st, ast.If):
+            v = _const_truth(st.test)
+            if v is not None:
+                out.extend(_prune_const_ifs(st.body if v else st.orelse))
+                continue
+            st.body = _prune_const_ifs(st.body) or [ast.copy_location(
+                ast.Pass(), st)]
+            st.orelse = _prune_const_ifs(st.orelse)
+        out.append(st)
+    return out
+
+
 class _Subst(ast.NodeTransformer):
     def __init__(self, mapping, class_funcs):
         self.mapping = mapping
         self.class_funcs = class_funcs
+
+    def visit_all(self, stmts):
+        return [self.visit(copy.deepcopy(s)) for s in stmts]
 
     def visit_Name(self, node):
         if isinstance(node.ctx, ast.Load) and node.id in self.mapping:
@@ -235,11 +271,15 @@ class _Unroller:
         self.mod = module_scope
         self.classes = {}      # class name -> _Scope
         self.count = 0
+        self.fn_tables = {}    # tables bound once in the current function
 
     def table(self, it, cls_scope, local_names):
         if _is_table(it):
             return it
         if isinstance(it, ast.Name):
+            v = self.fn_tables.get(it.id)
+            if v is not None and _is_table(v):
+                return v
             if it.id in local_names:
                 return None
             v = self.mod.tables.get(it.id)
@@ -289,7 +329,11 @@ class _Unroller:
                 if st.args.kwarg:
                     names.add(st.args.kwarg.arg)
                 names |= _stores(st.body)
+                saved = self.fn_tables
+                self.fn_tables = dict(saved)
+                self.fn_tables.update(_collect(st.body).tables)
                 self._block_owner(st, cls_scope, names | local_names)
+                self.fn_tables = saved
                 out.append(st)
                 continue
             if isinstance(st, ast.For) and not st.orelse:
@@ -299,9 +343,99 @@ class _Unroller:
                 if un is not None:
                     out.extend(self._block(un, cls_scope, local_names))
                     continue
+            dd = self._dict_dispatch(st, body[i + 1:], cls_scope,
+                                     local_names)
+            if dd is not None:
+                out.extend(self._block(dd, cls_scope, local_names))
+                return out
             self._block_owner(st, cls_scope, local_names)
             out.append(st)
         return out
+
+    def _dict_of(self, e, cls_scope, local_names):
+        if isinstance(e, ast.Name):
+            v = self.fn_tables.get(e.id)
+            if v is None and e.id not in local_names:
+                v = self.mod.tables.get(e.id)
+            return v if v is not None and _is_dict_table(v) else None
+        if isinstance(e, ast.Attribute) and isinstance(e.value, ast.Name):
+            sc = cls_scope if e.value.id in ('self', 'cls') else \
+                self.classes.get(e.value.id)
+            if sc is not None:
+                v = sc.tables.get(e.attr)
+                return v if v is not None and _is_dict_table(v) else None
+        return None
+
+    def _dict_dispatch(self, st, rest, cls_scope, local_names):
+        """`a, b = D[k]; rest` with D a literal dict table and k a run-time
+        name: one copy of `rest` per key, under `k == key`, with the
+        targets replaced by the row's cells."""
+        if not (isinstance(st, ast.Assign) and len(st.targets) == 1):
+            return None
+        v, t = st.value, st.targets[0]
+        default = None
+        if isinstance(v, ast.Subscript):
+            d, k = v.value, v.slice
+        elif isinstance(v, ast.Call) and isinstance(
+                v.func, ast.Attribute) and v.func.attr == 'get' and \
+                1 <= len(v.args) <= 2 and not v.keywords:
+            d, k = v.func.value, v.args[0]
+            default = v.args[1] if len(v.args) == 2 else ast.Constant(None)
+        else:
+            return None
+        if not isinstance(k, ast.Name):
+            return None
+        table = self._dict_of(d, cls_scope, local_names)
+        if table is None:
+            return None
+        if isinstance(t, ast.Name):
+            names = [t.id]
+        elif isinstance(t, (ast.Tuple, ast.List)) and all(
+                isinstance(x, ast.Name) for x in t.elts):
+            names = [x.id for x in t.elts]
+        else:
+            return None
+        if set(names) & _stores(rest) or k.id in _stores(rest) or \
+                k.id in names:
+            return None
+        rows = []
+        for key, row in zip(table.keys, table.values):
+            if isinstance(t, ast.Name):
+                cells = [row]
+            elif isinstance(row, (ast.Tuple, ast.List)) and len(
+                    row.elts) == len(names):
+                cells = list(row.elts)
+            else:
+                return None
+            if not all(_simple_cell(c) for c in cells):
+                return None
+            rows.append((key, cells))
+        size = sum(1 for _ in _own_nodes(rest)) + 1
+        if size * len(rows) > MAX_NODES:
+            return None
+        funcs = cls_scope.funcs if cls_scope is not None else set()
+        if default is not None and isinstance(t, ast.Name):
+            tail = [copy.deepcopy(x) for x in _Subst(
+                {names[0]: default}, funcs).visit_all(rest)]
+        elif default is not None:
+            return None
+        else:
+            tail = [ast.copy_location(ast.Raise(
+                exc=ast.Call(func=ast.Name(id='KeyError', ctx=ast.Load()),
+                             args=[copy.deepcopy(k)], keywords=[]),
+                cause=None), st)]
+        for key, cells in reversed(rows):
+            sub = _Subst(dict(zip(names, cells)), funcs)
+            body = sub.visit_all(rest) or [ast.copy_location(ast.Pass(), st)]
+            for b in body:
+                _fold_getattr(b)
+            body = _prune_const_ifs(body)
+            test = ast.Compare(left=copy.deepcopy(k), ops=[ast.Eq()],
+                               comparators=[copy.deepcopy(key)])
+            tail = [ast.copy_location(ast.If(test=test, body=body,
+                                             orelse=tail), st)]
+        self.count += 1
+        return tail
 
     def _unroll(self, loop, table, cls_scope, following):
         t = loop.target
